@@ -33,13 +33,13 @@ use scion_sdk_utils::backoff::BackoffConfig;
 use scion_stack::{
     path::{
         fetcher::traits::{PathFetchError, PathFetcher},
-        manager::verif::{VerifCacheEntry, VerifConfig, VerifFetchError, VerifPathSet},
+        manager::verif::{VerifCacheEntry, VerifConfig, VerifFetchError, VerifPathSet, manager_issue_sizes},
         policy::PathPolicy,
     },
-    stack::ScionSocketSendError,
+    stack::{ScionSocketSendError, verif_send::managed_udp_socket},
 };
 use sciparse::{
-    address::ip_addr::ScionIpAddr,
+    address::{ip_addr::ScionIpAddr, ip_socket_addr::ScionSocketIpAddr},
     dataplane_path::view::ScionDpPathViewExt,
     identifier::{asn::Asn, isd::Isd, isd_asn::IsdAsn},
     path::{
@@ -429,7 +429,24 @@ fn valid_at(expiry: Option<u32>, now: u64, thr_ns: u64) -> bool {
     e > now && e - now > thr_ns
 }
 
+/// the real policy objects of a history (`None`: the policy text does not parse)
+fn build_policies(h: &Hist) -> Option<Vec<Arc<dyn PathPolicy>>> {
+    let all_routes: Vec<ScionPath> = h.routes.iter().enumerate().map(|(i, r)| build_path(r, &PSpec { route: i, expiry: 4_000_000, meta: 0 })).collect();
+    Some(match &h.pol {
+        PolSpec::None => vec![],
+        PolSpec::Mask(m) => {
+            let allowed = all_routes.iter().enumerate().filter(|(i, _)| m >> i & 1 == 1).map(|(_, p)| path_fp(p)).collect();
+            vec![Arc::new(MaskPolicy { allowed })]
+        }
+        PolSpec::Acl(s) => vec![Arc::new(AclPolicy::parse(s).ok()?)],
+        PolSpec::Pattern(s) => vec![Arc::new(HopPatternPolicy::parse(s).ok()?)],
+    })
+}
+
 fn run_history(h: &Hist, lean: &mut Lean, prop: &str) -> Outcome {
+    if h.kind.starts_with("wiring") {
+        return run_wiring(h);
+    }
     let mut out = Outcome::default();
     let rt = tokio::runtime::Builder::new_current_thread().enable_all().build().unwrap();
     let _g = rt.enter();
@@ -469,22 +486,7 @@ fn run_history(h: &Hist, lean: &mut Lean, prop: &str) -> Outcome {
     }
 
     // ---- real objects ---------------------------------------------------------------------------
-    let all_routes: Vec<ScionPath> = h.routes.iter().enumerate().map(|(i, r)| build_path(r, &PSpec { route: i, expiry: 4_000_000, meta: 0 })).collect();
-    let policies: Vec<Arc<dyn PathPolicy>> = match &h.pol {
-        PolSpec::None => vec![],
-        PolSpec::Mask(m) => {
-            let allowed = all_routes.iter().enumerate().filter(|(i, _)| m >> i & 1 == 1).map(|(_, p)| path_fp(p)).collect();
-            vec![Arc::new(MaskPolicy { allowed })]
-        }
-        PolSpec::Acl(s) => match AclPolicy::parse(s) {
-            Ok(p) => vec![Arc::new(p)],
-            Err(_) => return out,
-        },
-        PolSpec::Pattern(s) => match HopPatternPolicy::parse(s) {
-            Ok(p) => vec![Arc::new(p)],
-            Err(_) => return out,
-        },
-    };
+    let Some(policies) = build_policies(h) else { return out };
     let needs_meta = matches!(h.pol, PolSpec::Acl(_) | PolSpec::Pattern(_));
     let script = Arc::new(Mutex::new(Script { next: None, calls: 0, bad_pair: false }));
     let vs = match catch(|| VerifPathSet::new(src_ia(), dst_ia(), vcfg, ScriptFetcher(script.clone()), policies, st(h.t0))) {
@@ -495,6 +497,28 @@ fn run_history(h: &Hist, lean: &mut Lean, prop: &str) -> Outcome {
         }
     };
     let mut l = Live { vs, script };
+
+    // `path(src, src)` and wildcard pairs never reach the path set (manager.rs): observed, not part of the model
+    if prop == "C05" {
+        let local = catch(|| l.vs.manager().path(src_ia(), src_ia(), st(h.t0)).now_or_never());
+        match local {
+            Ok(Some(Ok(p))) => {
+                if p.src_ia() != src_ia() || p.dst_ia() != src_ia() {
+                    out.spec.push(("C05:handout-endpoints".into(), "path(src, src) returned a path that does not stay in the source AS".into()));
+                }
+                out.labels.push(format!("path(src,src): local path, policy {}", if l.vs.predicate(&p) { "accepts it" } else { "rejects it (not consulted: AS-internal traffic uses no inter-AS path)" }));
+            }
+            Ok(other) => out.labels.push(format!("path(src,src): {}", if other.is_none() { "pending" } else { "error" })),
+            Err(m) => out.spec.push(("C06:panic:send".into(), format!("path(src, src) panicked: {m}"))),
+        }
+        let wild = IsdAsn::new(Isd(0), Asn(0));
+        match catch(|| l.vs.manager().path(src_ia(), wild, st(h.t0)).now_or_never()) {
+            Ok(Some(Err(_))) => out.labels.push("path(src,wildcard): error".into()),
+            Ok(Some(Ok(_))) => out.spec.push(("C05:unfiltered".into(), "path(src, wildcard) handed out a path".into())),
+            Ok(None) => out.spec.push(("C05:unfiltered".into(), "path(src, wildcard) does not return".into())),
+            Err(m) => out.spec.push(("C06:panic:send".into(), format!("path(src, wildcard) panicked: {m}"))),
+        }
+    }
 
     let mut delivered: Vec<ScionPath> = vec![];
     let mut any_allowed_delivered = false;
@@ -695,7 +719,13 @@ fn run_history(h: &Hist, lean: &mut Lean, prop: &str) -> Outcome {
                                     if still && strong_alt && active_valid {
                                         spec.push(("C07:steer-away".into(), "the active path crosses the reported interface, a valid cached alternative avoids it and outscores every affected path by more than the threshold, yet the active path still crosses it".into()));
                                     } else if still && !alts.is_empty() {
-                                        spec.push(("C07:steer-away:alternative-penalised".into(), "after a failure report on the active path a valid cached path avoids the failed interface, but its own penalty keeps the score gap below the swap threshold: traffic stays on the failed interface".into()));
+                                        let act_entry = post_active.as_ref().and_then(|(_, fp)| post.iter().find(|e| e.fingerprint == *fp));
+                                        if let Some(ae) = act_entry {
+                                            match classify_non_steer(&hitting, &alts, ae, thr_f, now, &issue_log, &h.ops[..=idx]) {
+                                                NonSteer::Finding(key, what) => spec.push((key, what)),
+                                                NonSteer::ConfigDisablesFailover => out.labels.push("steer-away not required: swap threshold >= every documented penalty".into()),
+                                            }
+                                        }
                                     }
                                 }
                             }
@@ -752,6 +782,20 @@ fn run_history(h: &Hist, lean: &mut Lean, prop: &str) -> Outcome {
                     }
                 };
                 out.labels.push(format!("send cached={} path={}", cs.split(':').next().unwrap(), ps.split(':').next().unwrap()));
+                // ---- oracle: C06 "while a valid (= unexpired) path is known a sender is never left without one"
+                if matches!(&c, Ok(None)) {
+                    let cache = l.vs.cache(t, false);
+                    let unexpired = |e: &VerifCacheEntry| e.expiry.map(|x| x as u64 > now / NS).unwrap_or(true);
+                    if cache.iter().any(|e| unexpired(e)) {
+                        let act_expired = act.as_ref().map(|(p, _)| p.expiration().map(|e| e as u64 <= now / NS).unwrap_or(false));
+                        let any_valid = cache.iter().any(|e| valid_at(e.expiry, now, thr_ns));
+                        match act_expired {
+                            Some(true) => spec.push(("C06:without-path:active-expired-between-ticks".into(), format!("the active path expired before the worker's next maintenance tick (next refetch {}), cached_path returns none although {} cached path(s) are not expired at now={now}", ns_of(l.vs.next_refetch()), cache.iter().filter(|e| unexpired(e)).count()))),
+                            None if !any_valid => spec.push(("C06:without-path:only-near-expiry-paths".into(), format!("every cached path is within min_expiry_threshold of its expiry but not expired at now={now}; none is made active and the sender gets no path"))),
+                            _ => spec.push(("C06:without-path".into(), format!("cached_path returned none at now={now} although an unexpired path is cached (active slot: {:?})", act.as_ref().map(|a| fp_exp(&a.0))))),
+                        }
+                    }
+                }
                 // ---- oracle: C05 / C06 on what was handed out -----------------------------------
                 for hp in &handed {
                     out.handouts += 1;
@@ -858,6 +902,82 @@ impl<T> TruncFront for Vec<T> {
             self.drain(..n);
         }
     }
+}
+
+/// documented penalty magnitudes (doc comments of `IssueKind::penalty`): link failures 1.0, first-hop send failure 0.4
+fn spec_penalty(k: &KindSpec) -> f64 {
+    match k {
+        KindSpec::Xid(..) | KindSpec::Icd(..) => 1.0,
+        KindSpec::Fhu(..) => 0.4,
+        KindSpec::Ptb => 0.0,
+    }
+}
+/// documented reliability half-life
+const SPEC_HALF_LIFE_S: f64 = 90.0;
+/// documented length score: impact 0.1, one 50th per hop field
+fn spec_base(p: &ScionPath) -> Option<f64> {
+    let hops = p.metadata().and_then(|m| m.interfaces.as_ref()).map(|v| v.len() / 2 + 1)?;
+    Some(0.1 * (1.0 - hops as f64 * 0.02))
+}
+/// upper bound of the penalty a path still carries at `now` from the issues of the history that match it
+/// (sum of documented magnitudes decayed with the documented half-life, at most 1)
+fn spec_residual(p: &ScionPath, now: u64, issue_log: &[(KindSpec, u64)], ops: &[OpSpec]) -> f64 {
+    let dec = |t: u64| (2f64).powf(-(now.saturating_sub(t) as f64 / 1e9) / SPEC_HALF_LIFE_S);
+    let mut r = 0.0;
+    for (k, t) in issue_log {
+        if kind_matches(k, p) {
+            r += spec_penalty(k) * dec(*t);
+        }
+    }
+    for o in ops {
+        if let OpSpec::Report { kind, ts } = o {
+            if kind_matches(kind, p) && !issue_log.iter().any(|(k, t)| k == kind && *t >= *ts) {
+                // never ingested by the path set: applied from the issue cache when the path is fetched
+                r += spec_penalty(kind) * dec(*ts);
+            }
+        }
+    }
+    r.min(1.0)
+}
+
+enum NonSteer {
+    Finding(String, String),
+    ConfigDisablesFailover,
+}
+
+/// The active path was hit by `hitting`, valid alternatives avoiding the reported interface exist, but the
+/// active path stays. Which input class is this?  `need(q)` = gap the penalty has to open for alternative q.
+fn classify_non_steer(hitting: &[&KindSpec], alts: &[&VerifCacheEntry], active: &VerifCacheEntry, thr: f32, now: u64, issue_log: &[(KindSpec, u64)], ops: &[OpSpec]) -> NonSteer {
+    const EPS: f64 = 2e-3;
+    let pen = hitting.iter().map(|k| spec_penalty(k)).fold(0.0, f64::max);
+    let base_a = spec_base(&active.path).unwrap_or(0.1);
+    // (need without own penalty, residual penalty of the alternative)
+    let per_alt: Vec<(f64, f64)> = alts.iter().map(|q| (thr as f64 + base_a - spec_base(&q.path).unwrap_or(0.0), spec_residual(&q.path, now, issue_log, ops))).collect();
+    // an alternative for which the documented penalty opens the gap even counting the alternative's own residual penalty
+    if per_alt.iter().any(|(need, res)| need + res < pen - EPS) {
+        return NonSteer::Finding(
+            "C07:steer-away:weak-penalty".into(),
+            format!("a failure report with documented penalty {pen} hit the active path and a valid alternative avoids the interface (gap needed incl. its own residual penalty: {:?}), yet the active path stays: the effective penalty is weaker than documented", per_alt),
+        );
+    }
+    let clean: Vec<&(f64, f64)> = per_alt.iter().filter(|(_, res)| *res < EPS).collect();
+    if clean.is_empty() {
+        return NonSteer::Finding(
+            "C07:steer-away:alternative-penalised".into(),
+            "after a failure report on the active path every valid cached path that avoids the failed interface carries its own fresh penalty, which keeps the score gap below the swap threshold: traffic stays on the failed interface".into(),
+        );
+    }
+    // an unpenalised alternative exists, but not even the documented penalty can open the gap
+    if clean.iter().all(|(need, _)| *need >= 1.0 - EPS) {
+        return NonSteer::ConfigDisablesFailover;
+    }
+    if pen <= 0.4 + EPS {
+        return NonSteer::Finding(
+            "C07:steer-away:first-hop-penalty-below-threshold".into(),
+            format!("a first-hop send failure (penalty 0.4) was reported on the active path and an unpenalised valid alternative avoids the interface, but the penalty does not exceed path_swap_score_threshold {thr}: traffic stays on the unreachable first hop"),
+        );
+    }
+    NonSteer::ConfigDisablesFailover
 }
 
 /// swap rule (`decide_active_path_update`): a *valid* active path that stays cached is only replaced when the
@@ -1045,7 +1165,9 @@ fn gen_history(rng: &mut Rng, prop: &str, max_ops: usize) -> Hist {
     let rt = tokio::runtime::Builder::new_current_thread().enable_all().build().unwrap();
     let _g = rt.enter();
     let script = Arc::new(Mutex::new(Script { next: None, calls: 0, bad_pair: false }));
-    let vs = match catch(|| VerifPathSet::new(src_ia(), dst_ia(), h.cfg.to_verif(), ScriptFetcher(script.clone()), vec![], st(t0))) {
+    // the dry instance carries the history's policy, so that its timers are the ones the real run will have
+    let dry_policies = build_policies(&h).unwrap_or_default();
+    let vs = match catch(|| VerifPathSet::new(src_ia(), dst_ia(), h.cfg.to_verif(), ScriptFetcher(script.clone()), dry_policies, st(t0))) {
         Ok(v) => v,
         Err(_) => return h,
     };
@@ -1060,7 +1182,8 @@ fn gen_history(rng: &mut Rng, prop: &str, max_ops: usize) -> Hist {
         _ => &[0, 0, 0, 0, 1, 2, 3, 3, 3],
     };
     for i in 0..n_ops {
-        let w = if i == 0 { 0 } else { *rng.pick(weights) };
+        // mostly the first operation is the first fetch; one history in five starts with a report or a send
+        let w = if i == 0 { *rng.pick(&[0u8, 0, 0, 0, 1, 1, 3, 0, 0, 0]) } else { *rng.pick(weights) };
         let op = match w {
             0 => {
                 cur = gen_now(rng, cur, &l, thr_ns);
@@ -1196,6 +1319,43 @@ fn probes(prop: &str) -> Vec<Hist> {
                 OpSpec::Deliver { now: s(80) },
             ],
         });
+        // between ticks: the (short, best ranked) active path expires during the backoff after a failed fetch while
+        // the other cached path stays valid for hours
+        let mut c = base_cfg();
+        c.backoff = (60.0, 300.0, 1.5, 0.0);
+        c.refetch_interval_ms = 10_000;
+        let mut rs = two_routes();
+        rs.insert(0, Route { e0: 3, transit: vec![], last_in: 2 });
+        v.push(Hist {
+            kind: "probe-active-expires-between-ticks".into(),
+            cfg: c,
+            pol: PolSpec::None,
+            routes: rs,
+            t0,
+            ops: vec![
+                OpSpec::Maintain { now: s(0), resp: RespSpec::Ok(vec![PSpec { route: 0, expiry: 1_000_000 + 100, meta: 0 }, PSpec { route: 1, expiry: far, meta: 0 }]) },
+                OpSpec::Send { now: s(1) },
+                OpSpec::Maintain { now: s(10), resp: RespSpec::ErrOther },
+                OpSpec::Maintain { now: s(70), resp: RespSpec::ErrOther },
+                OpSpec::Send { now: s(99) },
+                OpSpec::Send { now: s(101) },
+                OpSpec::Send { now: s(159) },
+                OpSpec::Maintain { now: s(160), resp: RespSpec::ErrOther },
+                OpSpec::Send { now: s(161) },
+            ],
+        });
+        // the only fetched path is closer to its expiry than min_expiry_threshold (5 s) but lives for another 3 s
+        v.push(Hist {
+            kind: "probe-only-near-expiry-paths".into(),
+            cfg: base_cfg(),
+            pol: PolSpec::None,
+            routes: two_routes(),
+            t0,
+            ops: vec![
+                OpSpec::Maintain { now: s(0), resp: RespSpec::Ok(vec![PSpec { route: 0, expiry: 1_000_000 + 4, meta: 0 }]) },
+                OpSpec::Send { now: s(1) },
+            ],
+        });
         // max_cached_paths_per_pair = 0 is accepted by the validator
         let mut c = base_cfg();
         c.max_cached = 0;
@@ -1243,7 +1403,9 @@ fn probes(prop: &str) -> Vec<Hist> {
         for (pos, k0) in [("first-hop", KindSpec::Fhu(1, SRC_ASN, 1)), ("transit", KindSpec::Xid(1, 0x301, 4, 0)), ("transit-pair", KindSpec::Icd(1, 0x301, 1, 4, 0))] {
             for el in [0u64, 45, 90, 180, 900, 2400] {
                 let mut c = base_cfg();
-                c.threshold = 0.3;
+                // the documented first-hop penalty (0.4) cannot exceed the default threshold 0.5 (known finding, see the
+                // probe below): the first-hop failover probes run with 0.3, the link-failure ones with the default
+                c.threshold = if pos == "first-hop" { 0.3 } else { 0.5 };
                 c.refetch_interval_ms = 10_000_000;
                 v.push(Hist {
                     kind: format!("probe-failover-{pos}-{el}s"),
@@ -1264,6 +1426,31 @@ fn probes(prop: &str) -> Vec<Hist> {
                 });
             }
         }
+    }
+    if prop == "C07" {
+        // default configuration: one first-hop send failure on the active path, unpenalised alternative via another interface
+        let mut c = default_cfg();
+        c.issue_broadcast = 64;
+        v.push(Hist {
+            kind: "probe-first-hop-default-config".into(),
+            cfg: c,
+            pol: PolSpec::None,
+            routes: two_routes(),
+            t0,
+            ops: vec![
+                OpSpec::Maintain { now: s(0), resp: RespSpec::Ok(vec![PSpec { route: 0, expiry: far, meta: 0 }, PSpec { route: 1, expiry: far, meta: 0 }]) },
+                OpSpec::Send { now: s(1) },
+                OpSpec::Report { kind: KindSpec::Fhu(1, SRC_ASN, 1), ts: s(2) },
+                OpSpec::Deliver { now: s(2) },
+                OpSpec::Send { now: s(2) },
+            ],
+        });
+        // the same through the socket: UdpScionSocket::send_to -> report_send_error -> worker -> next send_to
+        v.push(wiring_hist("wiring-default-config", default_cfg(), two_routes(), vec![0, 1]));
+        let mut c = default_cfg();
+        c.threshold = 0.3;
+        v.push(wiring_hist("wiring-threshold-0.3", c, two_routes(), vec![0, 1]));
+        v.push(wiring_hist("wiring-single-path", default_cfg(), two_routes(), vec![0]));
     }
     if prop == "C05" {
         // policy admits nothing
@@ -1366,6 +1553,144 @@ fn match_cases(rng: &mut Rng, lean: &mut Lean, rep: &mut Report, n: usize) {
     }
 }
 
+// ---- socket wiring: UdpScionSocket::send_to over a manager-chosen path (real worker task, real clock) ----------
+
+#[derive(Clone)]
+struct ConstFetcher(Arc<Vec<ScionPath>>, Arc<Mutex<bool>>);
+impl PathFetcher for ConstFetcher {
+    async fn fetch_paths(&self, src: IsdAsn, dst: IsdAsn) -> Result<Vec<ScionPath>, PathFetchError> {
+        if src != src_ia() || dst != dst_ia() {
+            *self.1.lock().unwrap() = true;
+        }
+        Ok((*self.0).clone())
+    }
+}
+
+/// A wiring case is a `Hist` of kind `wiring…`: the first op is the fetch answer (expiries are replaced by
+/// real time + 1 h).  Script: send (ok) → the first hop of the path just used goes down → send (fails) →
+/// the manager must have been told → the worker re-ranks → the next send must avoid the failed first hop
+/// whenever a valid cached alternative does and the documented first-hop penalty exceeds the threshold.
+fn run_wiring(h: &Hist) -> Outcome {
+    let mut out = Outcome::default();
+    let rt = tokio::runtime::Builder::new_current_thread().enable_all().build().unwrap();
+    let Some(OpSpec::Maintain { resp: RespSpec::Ok(ps), .. }) = h.ops.first() else { return out };
+    let real_now = SystemTime::now().duration_since(SystemTime::UNIX_EPOCH).unwrap().as_secs() as u32;
+    let paths: Vec<ScionPath> = ps.iter().filter(|p| p.route < h.routes.len()).map(|p| build_path(&h.routes[p.route], &PSpec { route: p.route, expiry: real_now + 3600, meta: p.meta })).collect();
+    let vcfg = h.cfg.to_verif();
+    if vcfg.validate().is_err() || paths.is_empty() {
+        return out;
+    }
+    let thr = h.cfg.threshold as f64;
+    let local = ScionSocketIpAddr::new(src_ia(), IpAddr::V4(Ipv4Addr::LOCALHOST), 40000);
+    let remote = ScionSocketIpAddr::new(dst_ia(), IpAddr::V4(Ipv4Addr::new(127, 0, 0, 2)), 50000);
+    let bad_pair = Arc::new(Mutex::new(false));
+    let res = catch(|| {
+        rt.block_on(async {
+            let mut spec: Vec<(String, String)> = vec![];
+            let mut labels: Vec<String> = vec![];
+            let (sock, mgr, under) = match managed_udp_socket(local, vcfg.manager_config(), ConstFetcher(Arc::new(paths.clone()), bad_pair.clone()), vec![]) {
+                Ok(x) => x,
+                Err(e) => {
+                    labels.push(format!("wiring: manager rejected the configuration: {e}"));
+                    return (spec, labels, false);
+                }
+            };
+            let tmo = Duration::from_secs(3);
+            // 1. first send over the managed path
+            match tokio::time::timeout(tmo, sock.send_to(b"verif", remote)).await {
+                Ok(Ok(())) => {}
+                other => {
+                    labels.push(format!("wiring: first send did not succeed: {other:?}"));
+                    return (spec, labels, false);
+                }
+            }
+            let Some((e_a, true)) = under.attempts.lock().unwrap().last().copied() else { return (spec, labels, false) };
+            let used = paths.iter().rev().find(|p| p.dp_path().first_egress_interface() == Some(e_a));
+            // 2. that first hop becomes unreachable; the next send over the managed path fails locally
+            under.down.lock().unwrap().insert(e_a);
+            let r2 = tokio::time::timeout(tmo, sock.send_to(b"verif", remote)).await;
+            let failed_locally = matches!(&r2, Ok(Err(ScionSocketSendError::UnderlayNextHopUnreachable { interface_id, .. })) if *interface_id == e_a);
+            labels.push(format!("wiring: send over a managed path whose first hop is down -> {}", if failed_locally { "UnderlayNextHopUnreachable" } else { "other" }));
+            if !failed_locally {
+                return (spec, labels, false);
+            }
+            // 3. the stack must have learnt about it
+            let reported = manager_issue_sizes(&*mgr).0 > 0;
+            if !reported {
+                spec.push(("C07:wiring:send-failure-not-reported".into(), format!("UdpScionSocket::send_to failed with UnderlayNextHopUnreachable on interface {e_a} of the path chosen by the path manager, but the path manager was never told (no issue recorded): the failure cannot steer traffic away")));
+            }
+            // 4. let the worker handle the notification, then send again
+            for _ in 0..40 {
+                tokio::time::sleep(Duration::from_millis(5)).await;
+                let cur = mgr.cached_path(src_ia(), dst_ia(), SystemTime::now());
+                if cur.as_ref().and_then(|p| p.dp_path().first_egress_interface()) != Some(e_a) {
+                    break;
+                }
+            }
+            let _ = tokio::time::timeout(tmo, sock.send_to(b"verif", remote)).await;
+            let third = under.attempts.lock().unwrap().last().copied();
+            let alts: Vec<&ScionPath> = paths.iter().filter(|p| p.dp_path().first_egress_interface() != Some(e_a)).collect();
+            labels.push(format!("wiring: next send {}", match third { Some((e, _)) if e == e_a => "uses the failed first hop again", Some(_) => "avoids the failed first hop", None => "nothing sent" }));
+            if let (Some((e3, _)), false, Some(used)) = (third, alts.is_empty(), used) {
+                if e3 == e_a && reported {
+                    let base_a = spec_base(used).unwrap_or(0.1);
+                    let need = alts.iter().map(|q| thr + base_a - spec_base(q).unwrap_or(0.0)).fold(f64::MAX, f64::min);
+                    if need < 0.4 - 2e-3 {
+                        spec.push(("C07:steer-away:weak-penalty".into(), format!("socket level: the first-hop failure on interface {e_a} was reported, an unpenalised cached path avoids it and the documented penalty 0.4 exceeds the needed gap {need}, yet the next send_to used interface {e_a} again")));
+                    } else if need < 1.0 - 2e-3 {
+                        spec.push(("C07:steer-away:first-hop-penalty-below-threshold".into(), format!("socket level: send_to failed on first-hop interface {e_a}, an unpenalised cached path avoids it, but the very next send_to used interface {e_a} again (penalty 0.4 does not exceed path_swap_score_threshold {thr})")));
+                    }
+                }
+            }
+            drop(sock);
+            drop(mgr);
+            (spec, labels, true)
+        })
+    });
+    match res {
+        Ok((spec, labels, nontrivial)) => {
+            out.spec = spec;
+            out.labels = labels;
+            out.nontrivial = nontrivial;
+            out.ops_run = 3;
+        }
+        Err(m) => out.spec.push(("C06:panic:wiring".into(), format!("socket wiring scenario panicked: {m}"))),
+    }
+    if *bad_pair.lock().unwrap() {
+        out.spec.push(("C05:fetch-pair".into(), "the fetcher was asked for another (src,dst) pair".into()));
+    }
+    out
+}
+
+fn wiring_hist(kind: &str, cfg: CfgSpec, routes: Vec<Route>, answer: Vec<usize>) -> Hist {
+    Hist { kind: kind.into(), cfg, pol: PolSpec::None, routes, t0: 0, ops: vec![OpSpec::Maintain { now: 0, resp: RespSpec::Ok(answer.into_iter().map(|r| PSpec { route: r, expiry: 0, meta: 0 }).collect()) }] }
+}
+
+/// production default configuration
+fn default_cfg() -> CfgSpec {
+    CfgSpec {
+        max_cached: 50,
+        refetch_interval_ms: 1_800_000,
+        min_refetch_delay_ms: 60_000,
+        min_expiry_threshold_ms: 300_000,
+        max_idle_ms: 120_000,
+        backoff: (60.0, 300.0, 1.5, 5.0),
+        issue_cache: 100,
+        issue_broadcast: 10,
+        dedup_ms: 10_000,
+        threshold: 0.5,
+    }
+}
+
+fn gen_wiring(rng: &mut Rng) -> Hist {
+    let routes = gen_routes(rng);
+    let mut cfg = default_cfg();
+    cfg.threshold = *rng.pick(&[0.5f32, 0.3, 0.3, 0.1, 0.0]);
+    let k = rng.range(1, routes.len().min(6) as u64) as usize;
+    let answer: Vec<usize> = (0..k).map(|_| rng.below(routes.len() as u64) as usize).collect();
+    wiring_hist("wiring-random", cfg, routes, answer)
+}
+
 // ---- shrinking ---------------------------------------------------------------------------------------
 
 fn shrink(h: &Hist, lean: &mut Lean, prop: &str, still: &dyn Fn(&Outcome) -> bool) -> Hist {
@@ -1424,11 +1749,17 @@ fn main() {
         }
     } else {
         hists.extend(probes(&prop));
-        let (n, max_ops) = if args.thorough() { (1500, 1500) } else { (260, 60) };
+        let (n, max_ops) = if args.thorough() { (1500, 1500) } else { (400, 60) };
         for i in 0..n {
             // thorough: a few very long histories, many medium ones
             let m = if args.thorough() { if i % 50 == 0 { max_ops } else { 120 } } else { max_ops };
             hists.push(gen_history(&mut rng, &prop, m));
+        }
+        if prop == "C07" {
+            let mut wr = rng.fork();
+            for _ in 0..args.scale(10, 60) {
+                hists.push(gen_wiring(&mut wr));
+            }
         }
     }
     for h in &hists {
@@ -1436,7 +1767,7 @@ fn main() {
         let line = serde_json::to_string(h).unwrap();
         rep.case(&line, o.nontrivial);
         rep.traces += 1;
-        rep.hit(&format!("history {}", if h.kind.starts_with("probe") { "probe" } else { &h.kind }));
+        rep.hit(&format!("history {}", if h.kind.starts_with("probe") { "probe" } else if h.kind.starts_with("wiring") { "socket wiring" } else { &h.kind }));
         rep.hit(&format!("policy {}", match &h.pol { PolSpec::None => "none", PolSpec::Mask(_) => "mask", PolSpec::Acl(_) => "acl", PolSpec::Pattern(_) => "hop-pattern" }));
         rep.hit_n("ops", o.ops_run as u64);
         rep.hit_n("fetches executed", o.fetches);
@@ -1467,7 +1798,7 @@ fn main() {
                 continue;
             }
             let k = key.clone();
-            let small = if h.kind.starts_with("probe") { h.clone() } else { shrink(h, &mut lean, &prop, &|o: &Outcome| o.spec.iter().any(|(kk, _)| *kk == k)) };
+            let small = if h.kind.starts_with("probe") || h.kind.starts_with("wiring") { h.clone() } else { shrink(h, &mut lean, &prop, &|o: &Outcome| o.spec.iter().any(|(kk, _)| *kk == k)) };
             rep.spec_fail(key, what, json!({"history": small, "line": serde_json::to_string(&small).unwrap()}));
         }
     }
